@@ -164,3 +164,73 @@ def sync_attr(pos, nattr, has_value, wrap, from_param):
 ob("C13", "K2.attr_target", {"pos": R(0, 3), "nattr": R(1, 4), "has_value": BOOL, "wrap": BOOL, "from_param": BOOL}, T=300, tpath=60,
    funcs=FUNCS, bound="class with 1..4 annotated attributes and a method, ANY attribute selected; input = class attribute or function "
                       "parameter, with/without value; wrap on/off")(sync_attr)
+
+
+# K3: --input-eval mode: the target keeps its own name and receives the Literal of the evaluated input value ----------------------------
+def sync_eval(nvals, target_kind, nargs, ndefaults, t, has_self):
+    from cdd.compound.sync_properties import sync_property
+    from cdd.shared.source_transformer import ast_parse
+
+    if t >= nargs or ndefaults > nargs:
+        return ""
+    vals = ("alpha", "beta", "gamma")[:nvals]
+    in_src = "VAL = %r\n" % (list(vals),)  # a constant: --input-eval is eval by design (explicit opt-in)
+    want = "Literal[%s]" % ", ".join(repr(v) for v in vals)
+    input_ast = ast_parse(in_src, filename="<in>")
+    if target_kind == 0:
+        src = "X = 1\n\nclass K(object):\n    a0: str = 's0'\n    a1: str = 's1'\n\nY = 2\n"
+        path, own = "K.a1", "a1"
+    else:
+        src, names = build(nargs, ndefaults, has_self, False, bool(has_self))
+        own = "p%d" % t
+        path = ("K.f." if has_self else "f.") + own
+    output_ast, before = ast_parse(src, filename="<out>"), ast.parse(src)
+    import builtins
+
+    import cdd.compound.sync_properties as sp
+    from chx.shim import shim
+
+    def plain_eval(code, glb=None, loc=None):  # the engine's model of eval() loses the module namespace of a code object: run the real one untraced
+        from crosshair.tracers import NoTracing
+
+        with NoTracing():
+            return builtins.eval(code, glb) if loc is None else builtins.eval(code, glb, loc)
+
+    try:
+        with shim(sp, eval=plain_eval):
+            out = sync_property(True, "VAL", input_ast, "<in>", path, None, output_ast)
+    except (AssertionError, NotImplementedError) as e:
+        return "sync_property refused a valid request: %s: %s" % (type(e).__name__, e)
+    if target_kind == 0:
+        b0, b1 = before.body[1].body, out.body[1].body
+        if len(b0) != len(b1) or _dump(out.body[0]) != _dump(before.body[0]) or _dump(out.body[2]) != _dump(before.body[2]) or _dump(b0[0]) != _dump(b1[0]):
+            return "something other than the selected attribute changed"
+        text = ast.unparse(b1[1])
+        if text != "%s: %s" % (own, want) and not text.startswith("%s: %s = " % (own, want)):
+            return "selected attribute renders as %r, expected '%s: %s'" % (text, own, want)
+        return ""
+    fn0 = [n for n in (before.body[1].body if has_self else before.body) if isinstance(n, ast.FunctionDef) and n.name == "f"][0]
+    fn1 = [n for n in (out.body[1].body if has_self else out.body) if isinstance(n, ast.FunctionDef) and n.name == "f"][0]
+    ti = (1 if has_self else 0) + t
+    if len(fn0.args.args) != len(fn1.args.args) or len(fn0.args.defaults) != len(fn1.args.defaults):
+        return "number of parameters/defaults changed"
+    for j in range(len(fn0.args.args)):
+        a0, a1 = fn0.args.args[j], fn1.args.args[j]
+        if j == ti:
+            if a1.arg != own:
+                return "the target did not keep its own name (%r)" % a1.arg
+            if a1.annotation is None or ast.unparse(a1.annotation) != want:
+                return "the target did not receive %s (got %s)" % (want, None if a1.annotation is None else ast.unparse(a1.annotation))
+        elif _dump(a0) != _dump(a1):
+            return "another parameter changed"
+    for k in range(len(fn0.args.defaults)):
+        if _dump(fn0.args.defaults[k]) != _dump(fn1.args.defaults[k]):
+            return "a default changed in --input-eval mode"
+    return ""
+
+
+ob("C13", "K3.input_eval", {"nvals": R(1, 3), "target_kind": R(0, 1), "nargs": R(1, 3), "ndefaults": R(0, 3), "t": R(0, 2), "has_self": R(0, 2)},
+   pre="t < nargs and ndefaults <= nargs", T=600, tpath=60, funcs=FUNCS + ["cdd.shared.ast_utils.it2literal"],
+   assumes=["shim: eval in cdd.compound.sync_properties runs the real builtin outside the tracer (CrossHair's eval model drops the namespace of an exec-mode code object); the evaluated module is a concrete constant"],
+   bound="--input-eval with a concrete constant list of 1..3 strings (eval is the explicit opt-in); target = class attribute or parameter of a function/method "
+         "(1..3 parameters, any defaults, self/cls/none, any index): own name kept, Literal[...] received, nothing else changes (solver-enumerated shapes)")(sync_eval)
